@@ -161,6 +161,11 @@ func threadRun(L *LState) {
 	if L.stack.IsEmpty() {
 		return
 	}
+	if parent := L.Parent; parent != nil && L.ctx == nil && parent.ctx != nil {
+		// L was made before the state got its context (SetContext): the loop and the context are
+		// chosen by the resume, so L and the coroutines it creates from now on stop with the context
+		L.inheritContext(parent)
+	}
 
 	defer func() {
 		if rcv := recover(); rcv != nil {
